@@ -264,9 +264,14 @@ def spec_strategy():
     inject = st.one_of(st.just([]), st.just([]), st.lists(st.tuples(
         st.sampled_from(["set", "insert", "append", "before"]), st.integers(0, 6), key),
         min_size=1, max_size=2).map(lambda l: [list(t) for t in l]))
+    # one container in eight is big (30-70 pairs over the same few keys: many repeats,
+    # adjacent and not) - whatever is done differently above some size has to agree
+    big = st.lists(st.tuples(key, scalar), min_size=30, max_size=70)
+    items = st.integers(0, 7).flatmap(
+        lambda k: big if k == 0 else st.lists(st.tuples(key, value), max_size=7))
     return st.builds(lambda c, items, attr, pre, inject: {
         "c": c, "items": items, "attr": attr, "pre": pre, "inject": inject},
-        clsname, st.lists(st.tuples(key, value), max_size=7), st.booleans(), pre, inject)
+        clsname, items, st.booleans(), pre, inject)
 
 
 @st.composite
